@@ -1108,12 +1108,17 @@ def mon_B(case, pid):
                 lv["visit_at"] = st.index
             if t[1:2] == ["client"] and lv["prev_pcs"].get("c" + t[2]) == "upsert.update" and lv["req"].get(t[2], ["?"])[0] == "upsert":
                 lv["updated_at"][int(lv["req"][t[2]][1])] = st.index
+                if lv["prev_pcs"].get("w") == "ttl.put":
+                    # the worker stands between the store.put and the ttl.put of a put: an upsert of that key now updates an index
+                    # entry that is not there yet, and the worker's ttl.put then writes the put's (old) deadline over it
+                    lv.setdefault("overtook", set()).add(int(lv["req"][t[2]][1]))
             prev = lv["prev_snap"]
             if prev is not None and t[1:2] == ["sweeper"] and lv["prev_pcs"].get("s") == "store.remove":
                 for k, e in prev["store"].items():
                     if k not in snap["store"] and not e["soft"] and not (e["expiry"] is not None and prev["now"] > e["expiry"]):
                         mid = [c for c, v in lv["prev_pcs"].items() if c.startswith("c") and v in ("upsert.weight_of", "ttl.put", "ttl.delete", "ttl.update.remove", "ttl.update.insert") and lv["req"].get(c[1:], ["?", "-1"])[0] == "upsert" and int(lv["req"][c[1:]][1]) == k]
-                        cause = "upsert-between-store-and-index" if mid else ("index-out-of-step-after-overlapping-upserts" if k in lv["overlapped"] else "no-upsert-involved")
+                        cause = "upsert-between-store-and-index" if mid else ("index-out-of-step-after-overlapping-upserts" if k in lv["overlapped"] else
+                                 ("index-out-of-step-after-upsert-overtook-the-put" if k in lv.get("overtook", set()) else "no-upsert-involved"))
                         if lv["updated_at"].get(k, -1) > lv["visit_at"] >= 0:
                             # the upsert rewrote the entry AFTER the sweeper had found it due: it rewrote an entry that was
                             # already expired (known finding D3: put_or_update updates an expired-but-unswept entry in place)
